@@ -1,10 +1,59 @@
-(* C04 - Report arithmetic is self-consistent.  Statements only. *)
-From Coq Require Import QArith Qcanon ZArith List Bool.
-Require Import CGT.Model.Num CGT.Model.Match CGT.Model.Report CGT.Proofs.MatchFacts.
+(* C04 - Report arithmetic is self-consistent from legs to tax-year totals.  Statements only. *)
+From Coq Require Import QArith Qcanon ZArith List Bool Sorted.
+Require Import CGT.Model.Num CGT.Model.Ledger CGT.Model.Match CGT.Model.Agg CGT.Model.Report
+               CGT.Proofs.MatchFacts CGT.Proofs.MatchInv CGT.Proofs.ReportFacts CGT.Proofs.RoundFacts CGT.Proofs.Examples.
 Import ListNotations.
 Open Scope Qc_scope.
 
 Theorem C04_leg_gain : forall d r m acq c,
   lg_gain (mk_leg d r m acq c) = lg_net (mk_leg d r m acq c) - c.
 Proof. exact mk_leg_gain. Qed.
+
+(* For every accepted, well-formed, date-sorted security ledger and every sale day d, the disposal reported for d:
+   its legs' quantities sum to the quantity sold, their gross proceeds sum to quantity x price of that day's sales
+   (sgross), their net proceeds to gross minus the sale fees, and their gains to net proceeds minus their total
+   allowable cost (all exactly, before the 10-place rounding of the displayed disposal figures). *)
+Theorem C04_disposal_arithmetic : forall w ds s, wf_days ds -> sorted_days ds -> run w ds = inr s ->
+  Forall2 (fun (x : Z * list leg) (d : day) =>
+     fst x = dt d /\
+     qsum (map lg_qty (snd x)) = sq d /\
+     qsum (map lg_gross (snd x)) = sgross d /\
+     qsum (map lg_net (snd x)) = sgross d - sfees d /\
+     qsum (map lg_gain (snd x)) = sgross d - sfees d - qsum (map lg_cost (snd x)))
+    (m_disp s) (filter hassell ds).
+Proof. exact run_disposals_arith. Qed.
+
+(* the 10-place rounding of a disposal's gross and net figure moves it by at most 5e-11 *)
+Theorem C04_rounding_bound : forall n x,
+  - (Qc_of_Z 1 / (Qc_of_Z 2 * Qc_of_Z (pow10 n))) <= round_half_even n x - x /\
+  round_half_even n x - x <= Qc_of_Z 1 / (Qc_of_Z 2 * Qc_of_Z (pow10 n)).
+Proof. exact round_half_even_close. Qed.
+
+(* year totals: net = total gain - total loss = the sum of the disposals' results; gains and losses are the positive
+   and the negative parts; taxable = max(0, net - exemption); the count is the number of disposals *)
+Theorem C04_year_net : forall P l ex y ds, y_net (mk_ysum P l ex y ds) = qsum (map d_gain ds).
+Proof. exact year_net. Qed.
+Theorem C04_year_definitions : forall P l ex y ds,
+  y_gain (mk_ysum P l ex y ds) = qsum (map gain_part ds) /\ y_loss (mk_ysum P l ex y ds) = qsum (map loss_part ds) /\
+  y_net (mk_ysum P l ex y ds) = y_gain (mk_ysum P l ex y ds) - y_loss (mk_ysum P l ex y ds) /\
+  y_exempt (mk_ysum P l ex y ds) = ex /\
+  y_taxable (mk_ysum P l ex y ds) = qmax 0 (y_net (mk_ysum P l ex y ds) - ex) /\
+  y_count (mk_ysum P l ex y ds) = List.length ds.
+Proof. intros. repeat split. Qed.
+Theorem C04_gain_loss_parts : forall d, gain_part d - loss_part d = d_gain d /\ 0 <= gain_part d /\ 0 <= loss_part d.
+Proof. intros d. split; [apply gain_loss_parts|apply year_parts_nonneg]. Qed.
+
+(* an unconfigured tax year is an error, never a zero exemption *)
+Theorem C04_exemption_required : forall cfg ys, ex_errors cfg ys = [] -> forall y, In y ys -> exists v, lookup_ex cfg y = Some v.
+Proof. exact ex_errors_none. Qed.
+
+Example C04_witness : wf_days ex1 /\ sorted_days ex1 /\ exists s, run 30 ex1 = inr s.
+Proof. split; [exact ex1_wf|]. split; [exact ex1_sorted|]. destruct ex1_runs as (s & E & _). exists s. exact E. Qed.
+
 Print Assumptions C04_leg_gain.
+Print Assumptions C04_disposal_arithmetic.
+Print Assumptions C04_rounding_bound.
+Print Assumptions C04_year_net.
+Print Assumptions C04_year_definitions.
+Print Assumptions C04_gain_loss_parts.
+Print Assumptions C04_exemption_required.
